@@ -777,7 +777,7 @@ pub fn consistency_violations_static(s: &Snap) -> Vec<(String, String)> {
         }
         if let Ok(l) = &o.list {
             for c in l {
-                let name = if c.len() > p.len() { &c[p.len()..] } else { "" };
+                let name = c.get(p.len()..).unwrap_or("");
                 if !c.starts_with(p.as_str()) || !name.starts_with('/') || name.len() < 2 || name[1..].contains('/') {
                     v.push(("listed-name-not-a-bare-child".into(), format!("read_dir({:?}) returned {:?}, which is not a bare child name", p, c)));
                 }
